@@ -663,7 +663,7 @@ Proof.
   match goal with |- context [wloop _ ?hs _ _ ?sm _] =>
     destruct (wloop_spec hs hc' (f :: hb') 0 sm [] SS_hb) as [w [new [Ew [Cn [Bk [Ln Fa]]]]]] end.
   { rewrite last_cons_ne by exact Hhne. exact Hhl. } { simpl. lia. } { reflexivity. }
-  exists w. split; [exact Ew|]. simpl in Bk. split; [|split].
+  split; [exact Ew|]. simpl in Bk. split; [|split].
   - rewrite Cn. apply wrap64_eqm. rewrite Z.add_0_l. rewrite sumZ_repeat0 in Sm. exact Sm.
   - rewrite Bk, Ln, L. simpl. destruct hb'; [congruence|reflexivity].
   - rewrite Bk. eapply Forall_impl; [|exact Fa]. intros p [k [y0 [y1 [H0 [H1 [H2 [H3 H4]]]]]]].
